@@ -26,6 +26,11 @@ def runs(tier):
     out.append(dict(name='flags', constants=dict(base, MaxD=3, RanksS={2}, Scenarios={'single'}, MaxDepth=2,
                                                  OpsAt=[{'OrthoLeft', 'OrthoRight', 'Ortho'}, {'SvdOpt', 'Svd'}],
                                                  KindPairs={('mixed1', 'mixed1')} if q else {('complex', 'complex'), ('mixedL', 'mixedL')})))
+    # trains whose equal cores are ONE array object at several positions (TT([x] * d), [a, M, M, b]): calls that are
+    # documented to work on a copy (overwrite=False) must not be disturbed by that.  (In-place sweeps on such a train are
+    # outside the domain: a train owns its core arrays - LAPACK overwrites them at rank-1 bonds.)
+    out.append(dict(name='rep', constants=dict(base, MaxD=4, DimsR={2, 3}, RanksS={1, 2}, OWs={False}, Scenarios={'single'},
+                                               Ops={'Svd', 'Pinv'}, KindPairs={('rep', 'rep')})))
     out.append(dict(name='big', nshards=4, constants=dict(base, MaxD=5, DimsR={4}, DimsC={1}, RanksS={4}, Scenarios={'single'},
                                                           Ops={'Svd', 'Pinv'}, KindPairs={('real', 'real'), ('complex', 'complex')})))
     return out
